@@ -116,15 +116,32 @@ H3K   == Rs(34)
 H3Msg == NBytes(SSub(SMul(FromNat(7), H3K), SMul(Mod(PMul(H3K, HY)[1], N), FromBytesBE(HKey))))
 H3Sig == AdEncrypt(HKey, HY, H3Msg, << "two", TRUE, NBytes(H3K), TRUE, Rnd32(35) >>)[2]
 H3Obj == AdDecrypt(HDec, H3Sig)[2]
+\* four honest adaptor signatures covering every combination of the tag bytes (parities) of R and R'.  A nonce k and its
+\* negation give opposite parities of both points; a second nonce kB is searched whose two parities relate the other way round.
+ParXor(k) == (IF FIsOdd(PMul(k, HY)[2]) THEN 1 ELSE 0) + (IF FIsOdd(PMulG(k)[2]) THEN 1 ELSE 0)   \* odd iff the tags differ
+HQkA == Rs(61)
+HQkB == Rs(61 + (CHOOSE j \in 1..40 : ParXor(Rs(61 + j)) % 2 # ParXor(HQkA) % 2))
+HQSigOf(k) == AdEncrypt(HKey, HY, HMsg, << "two", TRUE, NBytes(k), TRUE, Rnd32(36) >>)[2]
+HQ1 == HQSigOf(HQkA)
+HQ2 == HQSigOf(SNeg(HQkA))
+HQ3 == HQSigOf(HQkB)
+HQ4 == HQSigOf(SNeg(HQkB))
+HQ(c) == CASE c = 1 -> HQ1 [] c = 2 -> HQ2 [] c = 3 -> HQ3 [] c = 4 -> HQ4
+HQ1Obj == AdDecrypt(HDec, HQ1)[2]
+HonestTagsCover == { << HQ(c)[1], HQ(c)[34] >> : c \in 1..4 } = { << 2, 2 >>, << 2, 3 >>, << 3, 2 >>, << 3, 3 >> }
 
 Cases == <<
        { << "pipe", k, d, m, s >> : k \in 1..(IF Thorough THEN 7 ELSE 3), d \in 1..(IF Thorough THEN 6 ELSE 3),
                                     m \in (IF Thorough THEN 1..9 ELSE {1, 3, 4, 6, 8}),
-                                    s \in (IF Thorough THEN 1..9 ELSE 1..3) }
+                                    s \in (IF Thorough THEN 1..9 ELSE {1, 3}) }
      , { << "pipe", k, d, ((k * 7 + d) % 9) + 1, ((k + d * 3) % 9) + 1 >> : k \in 1..7, d \in 1..6 }
      , { << "twin", k, d, m, s >> : k \in 1..3, d \in 1..3, m \in {1, 4, 8}, s \in {1, 3} }
      , { << "encf", v >> : v \in 1..16 }
      , { << "flipv", b >> : b \in 0..1295 }
+     , { << "flipq", c, b >> : c \in 1..4, b \in { x \in 0..1295 : Thorough \/ x < 16 \/ (x >= 264 /\ x < 280) \/ x % 16 = 7 } }
+     , { << "tag", c, pos, val, 1 >> : c \in 1..4, pos \in {1, 34}, val \in 0..255 }
+     , { << "tag", 1, pos, val, 2 >> : pos \in {1, 34}, val \in 0..255 }
+     , { << "tag", 1, pos, val, 3 >> : pos \in {1, 34}, val \in (IF Thorough THEN 0..255 ELSE {0, 1, 2, 3, 4, 6, 7, 130, 131, 255}) }
      , { << "flipd", b >> : b \in 0..1295 }
      , { << "flipr", b >> : b \in 0..1295 }
      , { << "flipm", b >> : b \in { x \in 0..255 : Thorough \/ x % 4 = 3 } }
@@ -284,6 +301,7 @@ TinyCases == <<
      , { << "tver", h, f, val >> : h \in TinyHonest, f \in {1, 2}, val \in 0..NN }
      , { << "tver", h, f, val >> : h \in TinyHonest, f \in {3, 5}, val \in 0..(NN + 3) }
      , { << "tver", h, 4, val >> : h \in TinyHonest, val \in 0..(2 * NN + 2) }
+     , { << "ttag", h, pos, val >> : h \in { x \in TinyHonest : x[1] = 5 /\ x[3] = 1 }, pos \in {1, 34}, val \in 0..255 }
      , { << "tverk", h, w, val >> : h \in TinyHonest, w \in 1..3, val \in 1..(NN - 1) }
      , { << "tdec", h, val >> : h \in TinyHonest, val \in { v \in 0..(NN + 3) : ~IsZero(Mod(TinyVal(v), N)) } }
      , { << "trec", h, r, s, y >> : h \in TinyRecH, r \in 0..(NN-1), s \in 1..(NN-1), y \in (IF ~Big THEN 1..(NN-1) ELSE {4, NN - 4}) }>>
@@ -303,6 +321,8 @@ ExpandTiny(c) ==
          LET h == c[2]  a == TinySigOf(h)  w == c[3]  v == FromNat(c[4]) IN
          AV(a, Ser33(PMulG(IF w = 1 THEN v ELSE FromNat(h[1]))), NBytes(IF w = 3 THEN v ELSE TinyMsgs[h[3]]),
             Ser33(PMulG(IF w = 2 THEN v ELSE FromNat(h[2]))))
+    [] c[1] = "ttag" ->
+         LET h == c[2] IN AV([ TinySigOf(h) EXCEPT ![c[3]] = c[4] ], Ser33(PMulG(FromNat(h[1]))), NBytes(TinyMsgs[h[3]]), Ser33(PMulG(FromNat(h[2]))))
     [] c[1] = "tdec" -> AD(NBytes(TinyVal(c[3])), TinySigOf(c[2]))
     [] c[1] = "trec" ->    \* every ECDSA signature object with s # 0 against one adaptor signature and every encryption key.
                            \* s = 0 and decryption keys = 0 (mod n) are decided in the real group only: the small-group builds
@@ -322,6 +342,14 @@ TinyVerifySound(i, o) ==
           LET d == AdDecrypt(NBytes(FromNat(y)), i.asig) IN
           d[1] = 1 /\ VerifyEq(d[2][1], d[2][2], i.msg, X) /\ AdRecover(d[2], i.asig, Y) = << 1, FromNat(y) >>
 
+\* every value of the tag byte of R (pos = 1) or R' (pos = 34) of an honest signature: only the original value verifies;
+\* decryption and recovery do not read the tags
+ExpandTag(c, pos, val, op) ==
+  LET a == [ HQ(c) EXCEPT ![pos] = val ] IN
+  CASE op = 1 -> AV(a, Ser33(HX), HMsg, Ser33(HY))
+    [] op = 2 -> AD(HDec, a)
+    [] op = 3 -> AR(SigBytes(HQ1Obj), a, Ser33(HY))
+
 ExpandSsp(v, op) ==
   LET a == IF v = 1 THEN H3Sig ELSE SetField(H3Sig, 3, NBytes(Add(AdSp(H3Sig), N))) IN
   CASE op = 1 -> AV(a, Ser33(HX), H3Msg, Ser33(HY))
@@ -333,6 +361,8 @@ Expand(c) ==
     [] c[1] = "twin"  -> ExpandTwin(c[2], c[3], c[4], c[5])
     [] c[1] = "encf"  -> ExpandEncFail(c[2])
     [] c[1] = "flipv" -> AV(FlipBit(HSig, c[2]), Ser33(HX), HMsg, Ser33(HY))
+    [] c[1] = "flipq" -> AV(FlipBit(HQ(c[2]), c[3]), Ser33(HX), HMsg, Ser33(HY))
+    [] c[1] = "tag"   -> ExpandTag(c[2], c[3], c[4], c[5])
     [] c[1] = "flipd" -> AD(HDec, FlipBit(HSig, c[2]))
     [] c[1] = "flipr" -> AR(SigBytes(HObj), FlipBit(HSig, c[2]), Ser33(HY))
     [] c[1] = "flipm" -> AV(HSig, Ser33(HX), FlipBit(HMsg, c[2]), Ser33(HY))
@@ -361,6 +391,7 @@ Next == Pick \/ Eval
 InvPipeline == (phase = "done" /\ rec.e = "AdaptorPipeline") =>
                  /\ PipelineSound(rec.in, rec.out) /\ PipelineFailZero(rec.in, rec.out)
                  /\ PipelineTotal(rec.in, rec.out) /\ EncryptCanonical(rec.out)
+InvHonestTags == HonestTagsCover       \* the four honest signatures of the tag families realise all four tag combinations
 InvEncrypt == (phase = "done" /\ rec.e = "AdaptorEncrypt" /\ rec.out.kret = 1) =>
                  (rec.out.ret = 0 => AllZero(rec.out.asig)) /\ EncryptCanonical(rec.out)
 InvTinyVerify == (phase = "done" /\ rec.e = "AdaptorVerify") => TinyVerifySound(rec.in, rec.out)
